@@ -929,6 +929,10 @@ impl QueryRouter {
                 };
 
                 shards.insert(sharder.shard(value));
+            } else if (len as i32) > 0 {
+                // Not a sharding key: skip its value so the next parameter is read from the
+                // right offset (a length of -1 denotes NULL and carries no bytes).
+                message_cursor.advance(cmp::min(len, message_cursor.remaining()));
             }
         }
 
